@@ -953,6 +953,12 @@ class _ExecutorManagerThread(threading.Thread):
         #  * We don't need to communicate with the workers anymore
         #  * There is nothing left in the Queue buffer except None sentinels
         mp.util.debug("closing call_queue")
+        if broken or self.executor_flags.kill_workers:
+            # The workers have been killed: nobody reads the call queue
+            # anymore. Close our copy of its reading end so that the feeder
+            # thread cannot stay blocked forever writing call items to a full
+            # pipe: it gets EPIPE instead, which it ignores.
+            self.call_queue._reader.close()
         self.call_queue.close()
         self.call_queue.join_thread()
 
